@@ -210,7 +210,7 @@ def check_case(case):
             continue
         try:
             # a caller-owned buffer refilled in place from case to case (one per shape / dtype)
-            ph_in = _refill(phase, 'phase')
+            ph_in = _refill.primed(phase, 'phase', lambda b_: get_cycle_vector(b_, return_good=rg, phase_step=step))
             out = get_cycle_vector(ph_in, return_good=rg, phase_step=step)
             if not np.array_equal(ph_in, phase):
                 viols.append(('input-modified', '%s: the phase array was changed' % describe(case)))
